@@ -467,12 +467,15 @@ def WSys.run (c : Codec α) : List (WAct α) → WSys → List (Option (Poll WRe
 /-! ## the concrete payload type used by the driver and the harness -/
 
 /-- `hio::V`: `U(u64)`, `B(Vec<u8>)`, `X(partial)` whose `Encode` impl writes `partial`
-    to the writer and then fails, and `E` whose `Encode` impl writes nothing (no `Decode` impl accepts the empty payload). -/
+    to the writer and then fails, and `E` whose `Encode` impl writes nothing (no `Decode` impl accepts the empty payload),
+    and `T(u64)` whose `Encode` impl writes one item more than its `Decode` impl reads (a frame may hold more than the value's decoder consumes:
+    `minicbor::decode` ignores what follows the item). -/
 inductive Val where
   | u (n : Nat)
   | b (bs : Bytes)
   | x (part : Bytes)
   | e                         -- a value whose `Encode` impl writes nothing and succeeds (an empty payload: a frame of four zero bytes)
+  | t (n : Nat)               -- a value whose `Encode` impl writes the number and one more item (padding); its `Decode` impl reads the number only
   deriving DecidableEq, Repr, Inhabited
 
 /-- `impl Decode for V`: `match d.datatype()? { U8|U16|U32|U64 => d.u64(), Bytes => d.bytes(), _ => message }` -/
@@ -493,6 +496,7 @@ def valCodec : Codec Val where
     | .b bs => .ok (Enc.bytes bs)
     | .x part => .error part
     | .e => .ok []
+    | .t n => .ok (Enc.u64 n ++ [0x00])
   dec p :=
     match decVal p with
     | .ok v _ => .ok v
